@@ -81,13 +81,24 @@ def fingerprint(crate_json):
     return out
 
 
+def adt_shapes(crate_json):
+    """{path: {"is_enum":, "variants": [[variant name, [[field name, field type]...]]...], "file":}}"""
+    out = {}
+    for a in crate_json.get("adts", []):
+        out[a["path"]] = {"is_enum": bool(a["is_enum"]), "file": a["span"]["file"],
+                          "variants": [[v["name"], [[f["name"], f["ty"]] for f in v["fields"]]] for v in a["variants"]]}
+    return out
+
+
 def write_reference(facts_dir, dest=REF):
     ref = {}
     for name in ("anything", "any"):
         with open(os.path.join(facts_dir, name + ".mir.json")) as fh:
-            fp = fingerprint(json.load(fh))
+            j = json.load(fh)
+        fp = fingerprint(j)
         ref[name] = {p: {"sig": d["sig"], "refs_out": sorted(d["refs_out"]), "refs_in": sorted(d["refs_in"]), "file": d["file"]}
                      for p, d in sorted(fp.items())}
+        ref[name + "#adts"] = adt_shapes(j)
     with open(dest, "w") as fh:
         json.dump(ref, fh, indent=0, sort_keys=True)
     return ref
@@ -169,6 +180,76 @@ def rewrite(text, alias):
     return text
 
 
+def _shape_key(path, shape, types_only):
+    """Shape of an ADT with its own name abstracted away (a struct's only variant is named after the type)."""
+    last = path.rsplit("::", 1)[-1]
+    vs = []
+    for vn, fs in shape["variants"]:
+        vs.append(("%self" if (not shape["is_enum"] and vn == last) else vn,
+                   tuple((None if types_only else fn, re.sub(r"(?<![%s:])%s(?![%s])" % (_IDENT, re.escape(path), _IDENT), "%self", ft)) for fn, ft in fs)))
+    return (shape["is_enum"], tuple(vs))
+
+
+def resolve_adts(cur, ref):
+    """Renamed or moved types: {new path: reference path} - the same variants, field names and field types."""
+    missing = [p for p in ref if p not in cur]
+    new = [p for p in cur if p not in ref]
+    alias = {}
+    for m in sorted(missing):
+        km = _shape_key(m, ref[m], False)
+        cands = [n for n in new if n not in alias and _shape_key(n, cur[n], False) == km]
+        if len(cands) > 1:
+            same_file = [n for n in cands if cur[n]["file"] == ref[m]["file"]]
+            cands = same_file if len(same_file) == 1 else cands
+        if len(cands) == 1 and not [x for x in missing if x != m and _shape_key(x, ref[x], False) == km]:
+            alias[cands[0]] = m
+    return alias
+
+
+def resolve_fields(cur, ref):
+    """Renamed fields of a type that is otherwise unchanged: [(adt path, variant index, field index, new name, old name)].
+    Only names that no type of the reference uses for a field are taken (so that a projection by that name is unambiguous)."""
+    used = {fn for sh in ref.values() for _, fs in sh["variants"] for fn, _ in fs}
+    out = []
+    for p, sh in ref.items():
+        c = cur.get(p)
+        if c is None or _shape_key(p, c, True) != _shape_key(p, sh, True):
+            continue
+        for vi, ((_, fs_old), (_, fs_new)) in enumerate(zip(sh["variants"], c["variants"])):
+            for fi, ((o, _), (n, _)) in enumerate(zip(fs_old, fs_new)):
+                if o != n:
+                    if n in used or any(x[3] == n and x[4] != o for x in out):
+                        return []  # ambiguous: leave everything as it is (fail closed in the rules)
+                    out.append((p, vi, fi, n, o))
+    return out
+
+
+def rename_fields(j, renames):
+    """Structured rewrite: the ADT's own field list and every field projection with that index and (fresh) name."""
+    by_name = {(n, fi): o for _, _, fi, n, o in renames}
+    for a in j.get("adts", []):
+        for p, vi, fi, n, o in renames:
+            if a["path"] == p and a["variants"][vi]["fields"][fi]["name"] == n:
+                a["variants"][vi]["fields"][fi]["name"] = o
+
+    def walk(x):
+        if isinstance(x, dict):
+            if x.get("k") == "field" and (x.get("name"), x.get("i")) in by_name:
+                x["name"] = by_name[(x["name"], x["i"])]
+            for v in x.values():
+                walk(v)
+        elif isinstance(x, list):
+            for v in x:
+                walk(v)
+    walk(j["fns"])
+    for a in j.get("ast", []):
+        for f in a.get("fields", []) if isinstance(a, dict) else []:
+            if isinstance(f, dict):
+                for p, vi, fi, n, o in renames:
+                    if f.get("name") == n:
+                        f["name"] = o
+
+
 def load_crate(path, crate, ref_all=None):
     """-> (parsed json, {new: old})."""
     with open(path) as fh:
@@ -182,8 +263,23 @@ def load_crate(path, crate, ref_all=None):
     ref = ref_all.get(crate)
     if not ref:
         return j, {}
-    cur = fingerprint(j)
-    alias = resolve(cur, ref)
-    if not alias:
-        return j, {}
-    return json.loads(rewrite(text, alias)), alias
+    alias = {}
+    # 1. types (their paths occur inside function paths and signatures)
+    ref_adts = ref_all.get(crate + "#adts") or {}
+    if ref_adts:
+        ta = resolve_adts(adt_shapes(j), ref_adts)
+        if ta:
+            text = rewrite(text, ta)
+            j = json.loads(text)
+            alias.update({"type " + n: o for n, o in ta.items()})
+        fr = resolve_fields(adt_shapes(j), ref_adts)
+        if fr:
+            rename_fields(j, fr)
+            text = json.dumps(j)
+            alias.update({"field %s.%s" % (p, n): "%s.%s" % (p, o) for p, vi, fi, n, o in fr})
+    # 2. functions
+    fa = resolve(fingerprint(j), ref)
+    if fa:
+        j = json.loads(rewrite(text, fa))
+        alias.update(fa)
+    return j, alias
